@@ -54,7 +54,13 @@ def apply_edit(source, edit):
     old, new = edit['old'], edit['new']
     if source.count(old) != 1:
         return None
-    return source.replace(old, new)
+    source = source.replace(old, new)
+    # a change that needs a second site in the same file (a declaration and its use)
+    for old2, new2 in edit.get('more', ()):
+        if source.count(old2) != 1:
+            return None
+        source = source.replace(old2, new2)
+    return source
 
 
 def run_matrix(prop, repo_root, results, jobs=None):
